@@ -658,7 +658,30 @@ def check_id_strings(seed, n_cases=120):
 
     rnd = random.Random(seed)
     viol, cases = [], 0
-    # qualified names a Python function can really have (dots, <locals>, <lambda>, digits, prefixes of each other)
+    # (a) the id functions themselves, exhaustively on a finite domain: holders of distinct slots are distinct, use counts
+    #     give fresh ids, also for base ids that are prefixes / look-alikes of each other
+    from tawazi.node.helpers import _lazy_xn_id
+    from tawazi.node.node import count_occurrences, make_axn_id
+
+    cases += 1
+    bases = ["f", "f1", "f11", "g.h", "outer.<locals>.f", "<lambda>", "p.f", "p.f1"]
+    holders = {}
+    for b in bases:
+        for slot in list(range(0, 1200)) + ["a", "b", "x1", "args", "twz_active", "a1"]:
+            i_ = make_axn_id(b, slot)
+            if i_ in holders:
+                viol.append(dict(kind="history", check="id_strings", index=0, violations=[f"[C03] make_axn_id collides: {holders[i_]} and {(b, slot)} both give {i_!r}"]))
+            holders[i_] = (b, slot)
+    table = {}
+    for rounds in range(60):
+        for b in bases:
+            new = _lazy_xn_id(b, count_occurrences(b, table))
+            if new in table or new in holders:
+                viol.append(dict(kind="history", check="id_strings", index=0, violations=[f"[C03] use number {rounds} of {b!r} gets the id {new!r} which is already taken"]))
+            table[new] = None
+            for slot in (0, 1, "k"):
+                table[make_axn_id(new, slot)] = None  # the argument holders of that call site live in the same table
+    # (b) qualified names a Python function can really have (dots, <locals>, <lambda>, digits, prefixes of each other)
     nasty = ["f", "f1", "f11", "f_1", "g.h", "g.h.f", "outer.<locals>.f", "outer.<locals>.f1", "<lambda>", "C.method"]
     for idx in range(n_cases):
         cases += 1
